@@ -4,9 +4,9 @@
 MUTATIONS must fail.  Leaves the worktree regenerated from /repo.  ~20 s per experiment."""
 import os, shutil, subprocess, sys, time
 WT = os.path.dirname(os.path.dirname(os.path.abspath(__file__)))
-SCR = "/tmp/genfn-scratch"
+SCR = "/dev/shm/nomt-verif-genfn-scratch"
 MODS = ["NomtModel.Props.C01_GenFn", "NomtModel.Props.C02_GenFn", "NomtModel.Props.C05_GenFn", "NomtModel.Props.C09_GenFn",
-        "NomtModel.Props.C13_GenFn", "NomtModel.Props.C16_GenFn", "NomtModel.Props.C19_GenFn"]
+        "NomtModel.Props.C13_GenFn", "NomtModel.Props.C14_GenFn", "NomtModel.Props.C16_GenFn", "NomtModel.Props.C19_GenFn"]
 
 def reset():
     for d in ("core/src", "nomt/src"):
@@ -22,6 +22,7 @@ def run(name, edits):
             print(f"{name}: EDIT DOES NOT APPLY ({rel}: {s.count(old)} matches of {old[:40]!r})")
             return
         open(p, "w").write(s.replace(old, new))
+    subprocess.run([sys.executable, "tools/gen_constants.py"], cwd=WT, env=dict(os.environ, NOMT_REPO=SCR), capture_output=True, text=True)
     g = subprocess.run([sys.executable, "tools/gen_functions.py"], cwd=WT, env=dict(os.environ, NOMT_REPO=SCR), capture_output=True, text=True)
     if g.returncode:
         print(f"{name}: GENERATOR ERROR: {g.stdout.strip()}")
@@ -30,7 +31,7 @@ def run(name, edits):
     b = subprocess.run(["lake", "build"] + MODS, cwd=WT + "/lean", env=dict(os.environ, LEAN_NUM_THREADS="4"), capture_output=True, text=True)
     errs = [l for l in b.stdout.splitlines() if l.startswith("error:") and ".lean:" in l]
     mods = sorted(set(l.split(":")[1].strip().split("/")[-1] for l in errs))
-    print(f"{name}: {'RE-PROVES' if b.returncode == 0 else 'FAILS in ' + ', '.join(mods) + ' (' + str(len(errs)) + ' errors; first: ' + errs[0][:150] + ')' if errs else 'FAILS'}  [{time.time() - t:.0f} s]")
+    print(f"{name}: {'RE-PROVES' if b.returncode == 0 else 'FAILS in ' + ', '.join(mods) + ' (' + str(len(errs)) + ' errors; first: ' + errs[0][:150] + ')' if errs else 'FAILS (' + ' | '.join((b.stdout + b.stderr).strip().splitlines()[-3:])[:300] + ')'}  [{time.time() - t:.0f} s]")
 
 os.makedirs(SCR + "/core", exist_ok=True)
 os.makedirs(SCR + "/nomt", exist_ok=True)
@@ -154,8 +155,72 @@ MUTATIONS = [
  ("S1 seeded C16-branch-body-size-split-rounding", [("nomt/src/beatree/branch/node.rs", "(n * 2) + (prefix_len + total_separator_lengths + 7) / 8 + (n * 4)", "(n * 2) + (prefix_len + 7) / 8 + (total_separator_lengths + 7) / 8 + (n * 4)")]),
  ("U1 leaves the subset: hint_empty through an iterator", [("nomt/src/bitbox/meta_map.rs", "self.bitvec[bucket] == EMPTY", "self.bitvec.iter().nth(bucket).map_or(false, |b| *b == EMPTY)")]),
 ]
-EXPS = HARMLESS + MUTATIONS
+
+ROUND2_HARMLESS = [
+ ("H8 get_result: flipped comparison, negated `matches!` with swapped arms; MAX_IO_ATTEMPTS = 2 * 8", [
+   ("nomt/src/io/mod.rs", "_ if res == PAGE_SIZE as isize => IoKindResult::Ok,", "_ if PAGE_SIZE as isize == res => IoKindResult::Ok,"),
+   ("nomt/src/io/mod.rs", """                if matches!(os_err.kind(), std::io::ErrorKind::Interrupted) {
+                    IoKindResult::Retry
+                } else {
+                    IoKindResult::Err
+                }""", """                if !matches!(os_err.kind(), std::io::ErrorKind::Interrupted) {
+                    IoKindResult::Err
+                } else {
+                    IoKindResult::Retry
+                }"""),
+   ("nomt/src/io/mod.rs", "const MAX_IO_ATTEMPTS: usize = 16;", "const MAX_IO_ATTEMPTS: usize = 2 * 8;"),
+ ]),
+ ("H9 get_result: `0 == res`, `-1 == res`", [
+   ("nomt/src/io/mod.rs", "IoKind::Read(_, _, _) if res == 0 => IoKindResult::Ok,", "IoKind::Read(_, _, _) if 0 == res => IoKindResult::Ok,"),
+   ("nomt/src/io/mod.rs", "_ if res == -1 => {", "_ if -1 == res => {"),
+ ]),
+ ("H10 ProbeSequence::new through a local `n` and reordered fields, PageDiff::join with swapped operands", [
+   ("nomt/src/bitbox/mod.rs", """        Self {
+            hash,
+            bucket: hash % meta_map.len() as u64,
+            step: 0,
+        }""", """        let n = meta_map.len() as u64;
+        Self {
+            step: 0,
+            bucket: hash % n,
+            hash,
+        }"""),
+   ("nomt/src/page_diff.rs", "self.changed_nodes[0] | diff.changed_nodes[0],", "diff.changed_nodes[0] | self.changed_nodes[0],"),
+ ]),
+ ("H11 prefix_len: `if equal { bit_len = bit_len + 1 } else { break }`", [
+   ("nomt/src/beatree/ops/bit_ops.rs", """            if (key_a[byte] & mask) != (key_b[byte] & mask) {
+                break 'byte_loop;
+            }
+            bit_len += 1;""", """            if (key_a[byte] & mask) == (key_b[byte] & mask) {
+                bit_len = bit_len + 1;
+            } else {
+                break 'byte_loop;
+            }"""),
+ ]),
+ ("H12 prefix_len: bytes through locals, operands swapped (does NOT re-prove: the proof names the masked bytes in the source's order)", [
+   ("nomt/src/beatree/ops/bit_ops.rs", """            if (key_a[byte] & mask) != (key_b[byte] & mask) {""", """            let x = key_a[byte];
+            let y = key_b[byte];
+            if (y & mask) != (x & mask) {"""),
+ ]),
+]
+ROUND2_MUTATIONS = [
+ ("M12 get_result: a zero-byte transfer is Ok for every kind", [("nomt/src/io/mod.rs", "IoKind::Read(_, _, _) if res == 0 => IoKindResult::Ok,", "_ if res == 0 => IoKindResult::Ok,")]),
+ ("M13 get_result: an interrupted syscall is an error", [("nomt/src/io/mod.rs", """                    IoKindResult::Retry
+                } else {
+                    IoKindResult::Err""", """                    IoKindResult::Err
+                } else {
+                    IoKindResult::Err""")]),
+ ("M14 MAX_IO_ATTEMPTS = 17", [("nomt/src/io/mod.rs", "const MAX_IO_ATTEMPTS: usize = 16;", "const MAX_IO_ATTEMPTS: usize = 17;")]),
+ ("M15 ProbeSequence::new starts at step 1", [("nomt/src/bitbox/mod.rs", "            bucket: hash % meta_map.len() as u64,\n            step: 0,", "            bucket: hash % meta_map.len() as u64,\n            step: 1,")]),
+ ("M16 PageDiff::join intersects", [("nomt/src/page_diff.rs", "self.changed_nodes[1] | diff.changed_nodes[1],", "self.changed_nodes[1] & diff.changed_nodes[1],")]),
+ ("M17 prefix_len looks at 31 bytes", [("nomt/src/beatree/ops/bit_ops.rs", "'byte_loop: for byte in 0..32 {", "'byte_loop: for byte in 0..31 {")]),
+ ("M18 prefix_len: mask `1 << bit` (least significant bit first)", [("nomt/src/beatree/ops/bit_ops.rs", "            let mask = 1 << (7 - bit);\n            if (key_a[byte] & mask) != (key_b[byte] & mask) {", "            let mask = 1 << bit;\n            if (key_a[byte] & mask) != (key_b[byte] & mask) {")]),
+]
+EXPS = HARMLESS + MUTATIONS + ROUND2_HARMLESS + ROUND2_MUTATIONS
+if len(sys.argv) > 1:
+    EXPS = [e for e in EXPS if any(e[0].startswith(a + ' ') for a in sys.argv[1:])]
 for name, edits in EXPS:
     run(name, edits)
 shutil.rmtree(SCR, ignore_errors=True)
+subprocess.run([sys.executable, "tools/gen_constants.py"], cwd=WT)
 subprocess.run([sys.executable, "tools/gen_functions.py"], cwd=WT)
